@@ -478,11 +478,11 @@ func checkC09(tier string) {
 			return true
 		}
 	}
-	np := r.Pick(600, 120000)
+	np := r.Pick(600, 30000)
 	r.RunBatch(mon.Batch{Worker: "c09", Tag: "programs", N: np, Chunk: (np + 15) / 16, Parallel: 16, Params: c09Params{Part: "programs"}, Timeout: 40 * time.Minute, OnDeath: onDeath("programs")})
-	nf := r.Pick(400, 60000)
+	nf := r.Pick(400, 30000)
 	r.RunBatch(mon.Batch{Worker: "c09", Tag: "futures", N: nf, Chunk: (nf + 7) / 8, Parallel: 8, Params: c09Params{Part: "futures"}, Timeout: 40 * time.Minute, OnDeath: onDeath("futures")})
-	nc := r.Pick(300, 40000)
+	nc := r.Pick(300, 20000)
 	r.RunBatch(mon.Batch{Worker: "c09", Tag: "combinators", N: nc, Chunk: (nc + 7) / 8, Parallel: 8, Params: c09Params{Part: "combinators"}, Timeout: 40 * time.Minute, OnDeath: onDeath("combinators")})
 	nr := r.Pick(48, 1500)
 	r.RunBatch(mon.Batch{Worker: "c09", Tag: "racy-plain", N: nr, Chunk: (nr + 7) / 8, Parallel: 8, Params: c09Params{Part: "racy"}, Timeout: 40 * time.Minute, OnDeath: onDeath("overlap")})
